@@ -9,7 +9,7 @@ from props import rules_common as rc
 LEVEL = "model_checking"
 
 NAME = {"a": "a", "k-1": "k-1", "x_y": "x_y", "uname": "ключ"}
-VAL = {"v1": "v1", "uni": "значение-é", "empty": "", "gt": "x>y", "ltkv": "a<b k=v", "otherq": None, "looktag": "<block name=z>", "-": ""}
+VAL = {"v1": "v1", "uni": "значение-é", "empty": "", "gt": "x>y", "ltkv": "a<b k=v", "otherq": None, "looktag": "<block name=z>", "cmtchars": "#fff //x ## y", "-": ""}
 SEP = {"sp": " ", "sp2": "  ", "tab": "\t", "nl": "\n   "}
 EQ = {"eq": "=", "sp_eq_sp": " = ", "nl_eq": "\n   ="}
 END = {"plain": "</block>", "inner": "</ block >", "trailsp": "</block >"}
